@@ -349,11 +349,12 @@ class Scenario:
                     n_trig = len([x for x in self.wakeups if x > self.shutdown_at + EPS])
                     self.violation("S8-attempt-after-shutdown", f"{len(later)} connection attempt(s) after shutdown() (first at +{later[0]['t0'] - self.shutdown_at:.2f} s; description updates after shutdown: {n_trig})")
                     return
-            trig_after = [x for x in self.wakeups if x > closed + EPS]
+            # any trigger strictly after the close counts, however soon (a random timeline may put one 10 ms later)
+            trig_after = [x for x in self.wakeups if x > closed + 1e-9]
             until = min(trig_after) if trig_after else float("inf")
             if self.shutdown_at is not None and self.shutdown_at > closed:
                 until = min(until, self.shutdown_at)
-            later = [a for a in self.log.activations if closed + EPS < a["t0"] < until - EPS]
+            later = [a for a in self.log.activations if closed + 1e-9 < a["t0"] < until - 1e-9]
             if later:
                 self.violation("S8-attempt-after-close", f"{len(later)} connection attempt(s) after close() without any external trigger (first at +{later[0]['t0'] - closed:.2f} s)")
                 return
